@@ -23,8 +23,20 @@ def scratch_dir(prefix="verif-"):
   return tempfile.mkdtemp(prefix=prefix, dir=base)
 
 
+_JAVA_TMP = []
+def _java_tmp():
+  if not _JAVA_TMP:
+    import atexit, shutil
+    d = scratch_dir("verif-javatmp-")
+    atexit.register(shutil.rmtree, d, True)
+    _JAVA_TMP.append(d)
+  return _JAVA_TMP[0]
+
+
 def java_cmd(xmx="3g", xss="512m", extra=(), gc="-XX:+UseSerialGC"):
-  return ["java", gc, "-Xmx" + xmx, "-Xss" + xss] + list(extra) + \
+  # java.io.tmpdir: TLC creates an (empty) tlc-<n> directory per run there; keep it inside our scratch area
+  tmp = _java_tmp()
+  return ["java", gc, "-Xmx" + xmx, "-Xss" + xss, "-Djava.io.tmpdir=" + tmp] + list(extra) + \
          ["-cp", TLA_CP, "tlc2.TLC"]
 
 
